@@ -86,7 +86,13 @@ def main():
             tests = a.tests if a.tests else derive_tests(wt, files)
             rec["tests"] = tests
             if tests:
-                t = sh([PY, "-m", "pytest", "-q", "-p", "no:cacheprovider", "-x", *tests], env=env1, cwd=wt, timeout=3600)
+                # the repository's own settings (no PYTHONWARNINGS: test_bounds records warnings); the seven tests that need
+                # the network fail on the unchanged tree in this sandbox and are not part of the pinned baseline
+                envt = {k: v for k, v in env1.items() if k != "PYTHONWARNINGS"}
+                offline = ["tests/test_app/test_evo.py::test_get_app_tree_is_url", "tests/test_parse/test_sequence.py::test_line_based_url",
+                           "tests/test_util/test_io.py::test_open_url", "tests/test_util/test_io.py::test_open_url_compressed"]
+                desel = [x for o in offline for x in ("--deselect", o)]
+                t = sh([PY, "-m", "pytest", "-q", "-p", "no:cacheprovider", *desel, *tests], env=envt, cwd=wt, timeout=3600)
                 rec["tests_rc"] = t.returncode
                 rec["tests_tail"] = t.stdout[-300:]
         det = {}
